@@ -59,6 +59,17 @@ where
 
             match ready!(self.as_mut().project().inner.poll_next(cx)?) {
                 Some(r) => {
+                    // While producing this request the inner channel may also have retired
+                    // others (cancellations, expirations, dropped handlers), so the count taken
+                    // above can be stale. The new request is itself counted as in flight, so it
+                    // exceeds the limit only if the count is now above the limit. A limit of
+                    // zero admits nothing.
+                    let max_in_flight_requests = *self.as_mut().project().max_in_flight_requests;
+                    if max_in_flight_requests != 0
+                        && self.as_mut().in_flight_requests() <= max_in_flight_requests
+                    {
+                        return Poll::Ready(Some(Ok(r)));
+                    }
                     let _entered = r.span.enter();
                     tracing::info!(
                         in_flight_requests = self.as_mut().in_flight_requests(),
